@@ -1417,6 +1417,149 @@ def store_contract(E, st, args, kwargs, selfv, site):
     return outs
 
 
+class OutcomeMapV(V):
+    """The result dict of _store_cmd for a dict of n items (contract view): entry i is (key i, outcome i) in the order of
+    the caller's dict; outcome code(i): 1 = True, 0 = False, 2 = None."""
+    kind = "outcomemap"
+
+    def __init__(self, n, key_elem, code):
+        self.n, self.key_elem, self.code = n, key_elem, code
+
+    def truth(self, E, st):
+        return self.n > 0
+
+    def call_method(self, E, name, st, args, kwargs, fx, site):
+        if name == "items" and not args:
+            return [Ev(st, OutcomeItemsV(self))]
+        raise OutOfReach("result dict method " + name)
+
+
+class OutcomeItemsV(V):
+    kind = "outcomeitems"
+
+    def __init__(self, d):
+        self.d = d
+
+    def iter_view(self, E, st):
+        d = self.d
+
+        def item(i):
+            ks = d.key_elem(i)
+            ks = ks if isinstance(ks, list) else [(ks, [], "key")]
+            outs = []
+            for k, kc, kl in ks:
+                outs.append((TupleV([k, BoolV(True)]), kc + [d.code(i) == 1], kl + ",True"))
+                outs.append((TupleV([k, BoolV(False)]), kc + [d.code(i) == 0], kl + ",False"))
+                outs.append((TupleV([k, NONE]), kc + [d.code(i) == 2], kl + ",None"))
+            return outs
+        return d.n, item
+
+
+def store_many_contract(E, st, args, kwargs, selfv, site):
+    """Contract of Client._store_cmd for a dict of any size (verified by verify_store_cmd: every key maps to the documented
+    value of its own reply line, nothing else is in the result; noreply -> every key True; A-dict-order: the result is
+    built by inserting the keys in the order of the caller's dict)."""
+    names = ["name", "values", "expire", "noreply", "flags", "cas"]
+    b = dict(zip(names, args))
+    b.update(kwargs)
+    me = selfv
+    st.ghost.setdefault("store_calls", []).append(dict(b, sync_at_call=sync(E, st, me)))
+    vals = b["values"]
+    if not isinstance(vals, ghost.SymDictV):
+        raise OutOfReach("_store_cmd contract (many): expected the caller's dict")
+    verb = z3.simplify(b["name"].t).as_string() if isinstance(b["name"], BytesV) and z3.is_string_value(z3.simplify(b["name"].t)) else None
+    if verb not in DOC_VALID:
+        raise OutOfReach("_store_cmd called with verb %r" % verb)
+    outs = [Outcome("raise", st.fork(), ExcV("MemcacheIllegalInputError", []))]
+    f = st.fork()
+    cur = f.heap[me.ref]["sock"]
+    if isinstance(cur, ghost.SockV):
+        f.heap[cur.ref]["close_calls"] += 1
+    f.heap[me.ref]["sock"] = NONE
+    outs.append(Outcome("raise", f, ExcV("Exception", exact=False)))
+    Reply = z3.Function("reply_of_item", I, S)          # the reply line of item i (ghost)
+    code = z3.Function("outcome_code", I, I)
+    for s2, nr in E.branch(st, E.truth(b["noreply"], st)):
+        if isinstance(s2.heap[me.ref]["sock"], NoneV):
+            sk = ghost.new_sock(s2, "conn")
+            r = s2.heap[sk.ref]
+            r["connected"] = True
+            s2.assume(r["pos"] == z3.Length(r["inp"]))
+            s2.heap[me.ref]["sock"] = sk
+        i = z3.Int("oi")
+        if nr:
+            s2.assume(z3.ForAll([i], code(i) == 1))
+        else:
+            per = []
+            for ln in DOC_VALID[verb]:
+                v = DOC_TABLE[ln]
+                per.append(z3.And(Reply(i) == z3.StringVal(ln), code(i) == (2 if v is None else (1 if v else 0))))
+            s2.assume(z3.ForAll([i], z3.Implies(z3.And(0 <= i, i < vals.n), z3.Or(per))))
+        s2.ghost["store_noreply"] = nr
+        outs.append(Outcome("return", s2, OutcomeMapV(vals.n, vals.key_elem, code)))
+    return outs
+
+
+def verify_set_many(E, mode="exception"):
+    """Client.set_many: one _store_cmd(b'set', the caller's dict, expire, effective noreply, flags) and the list of failed keys =
+    exactly the keys whose own reply was not STORED, in the order of the caller's dict; noreply -> []."""
+    install_env(E, mode)
+    E.contracts[C + "._store_cmd"] = store_many_contract
+    q = C + ".set_many"
+    Reply = z3.Function("reply_of_item", I, S)
+    for nlabel, nrv in noreply_cases():
+        E.case_suffix = "/" + nlabel
+        st = State()
+        set_faults(st, mode)
+        me, sock0 = mk_client(st, True)
+        f = st.heap[me.ref]
+        st.ghost["store_calls"] = []
+        n = z3.Int("n_items")
+        st.assume(n >= 0)
+        KEY, VAL = z3.Function("SM_key", I, Py), z3.Function("SM_value", I, Py)
+        values = ghost.SymDictV(n, lambda i: OpaqueV(KEY(i), tag="key"), lambda i: OpaqueV(VAL(i), tag="value"))
+        expire, flv = OpaqueV(z3.Const("arg_expire", Py)), OpaqueV(z3.Const("flags_arg", Py))
+        nr_eff = f["default_noreply"].t if isinstance(nrv, NoneV) else nrv.t
+        wid, sid, rid_ = pid(E, "wire", q), pid(E, "sync", q), pid(E, "result", q)
+        for o in E.run_function(q, st, [values], {"expire": expire, "noreply": nrv, "flags": flv}, selfv=me):
+            s = o.st
+            calls = s.ghost["store_calls"]
+            if len(calls) != 1:
+                E.oblige("%s/exactly-one-exchange%s" % (wid, E.case_suffix), s, z3.BoolVal(False), func=q)
+                continue
+            c = calls[0]
+            verb_ok = isinstance(c["name"], BytesV) and z3.is_string_value(z3.simplify(c["name"].t)) and z3.simplify(c["name"].t).as_string() == "set"
+            nrp = E.truth(c["noreply"], s)
+            nrp = z3.BoolVal(nrp) if isinstance(nrp, bool) else nrp
+            E.oblige("%s/one-set-batch-with-the-callers-dict-expire-flags%s" % (wid, E.case_suffix), s,
+                     z3.BoolVal(bool(verb_ok and c["values"] is values and c["expire"] is expire and c.get("flags") is flv
+                                     and (c.get("cas") is None or isinstance(c.get("cas"), NoneV)))), func=q)
+            E.oblige("%s/waits-for-replies-iff-it-did-not-ask-for-noreply(documented-default)%s" % (sid, E.case_suffix), s, nrp == nr_eff, func=q)
+            E.oblige("%s/Sync-at-exchange%s" % (sid, E.case_suffix), s, c["sync_at_call"], func=q)
+            if o.kind == "raise":
+                if is_subclass(o.val.cls, "Exception"):
+                    E.oblige("%s/post@raise(Exception:Sync)%s" % (sid, E.case_suffix), s, sync(E, s, me), func=q)
+                continue
+            E.oblige("%s/post@ret(Sync)%s" % (sid, E.case_suffix), s, sync(E, s, me), func=q)
+            lf = s.ghost.get("last_filter")
+            if lf is None or o.val is not lf["result"]:
+                E.oblige("%s/post@ret(the-failed-keys-are-a-selection-of-the-batch)%s" % (rid_, E.case_suffix), s, z3.BoolVal(False), func=q)
+                continue
+            src, m, arr = lf["src"], lf["m"], lf["arr"]
+            k, k2, i = z3.Ints("sk sk2 si")
+            stored = lambda x: Reply(x) == z3.StringVal("STORED")
+            if s.ghost.get("store_noreply"):
+                E.oblige("%s/post@ret(noreply:no-key-is-reported-failed)%s" % (rid_, E.case_suffix), s, m == 0, func=q)
+                continue
+            E.oblige("%s/post@ret(every-listed-key-is-a-key-of-the-batch-whose-own-reply-was-not-STORED,in-the-order-of-the-dict)%s" % (rid_, E.case_suffix), s,
+                     z3.And(z3.ForAll([k], z3.Implies(z3.And(0 <= k, k < m), z3.And(0 <= src(k), src(k) < n, arr[k] == KEY(src(k)), z3.Not(stored(src(k)))))),
+                            z3.ForAll([k, k2], z3.Implies(z3.And(0 <= k, k < k2, k2 < m), src(k) < src(k2)))), func=q)
+            E.oblige("%s/post@ret(every-key-whose-reply-was-not-STORED-is-listed)%s" % (rid_, E.case_suffix), s,
+                     z3.ForAll([i], z3.Implies(z3.And(0 <= i, i < n, z3.Not(stored(i))), z3.Exists([k], z3.And(0 <= k, k < m, src(k) == i)))), func=q)
+    E.case_suffix = ""
+    E.contracts.pop(C + "._store_cmd", None)
+
+
 STORE_METHODS = {"set": "client", "add": "client", "replace": "client", "append": "client", "prepend": "client", "cas": False}
 
 
@@ -1535,12 +1678,15 @@ def verify_public_fetch(E, mode="exception"):
         me, sock0 = mk_client(st, True)
         f = st.heap[me.ref]
         st.ghost["fetch_calls"] = []
-        key, default, casd, expire = [OpaqueV(z3.Const(n, Py)) for n in ("arg_key", "arg_default", "arg_cas_default", "arg_expire")]
+        key, default, casd = [OpaqueV(z3.Const(n, Py)) for n in ("arg_key", "arg_default", "arg_cas_default")]
+        et = z3.Int("arg_expire")
+        expire = IntV(et)             # an integer exptime (the non-integer None is the separate case below)
         kwargs = {"default": default}
         if cas:
             kwargs["cas_default"] = casd
         if exp:
             kwargs["expire"] = expire
+            st.assume(et >= -(2 ** 63), et < 2 ** 63)
         for o in E.run_function(q, st, [key], kwargs, selfv=me):
             s = o.st
             calls = s.ghost["fetch_calls"]
@@ -1575,6 +1721,24 @@ def verify_public_fetch(E, mode="exception"):
                              z3.BoolVal(t) if isinstance(t, bool) else t, func=q)
             elif is_subclass(o.val.cls, "Exception"):
                 E.oblige("%s/post@raise(Exception:Sync)%s" % (sid, E.case_suffix), s, sync(E, s, me), func=q)
+    # gat / gats with expire=None: None is not an integer; _fetch_cmd reads None as "no exptime" (right for get / gets), so the
+    # wrapper must reject it before the exchange - otherwise 'gat <key>' (no exptime) is written, which is not a command
+    for meth, (cas, exp) in FETCH_METHODS.items():
+        if not exp:
+            continue
+        q = "%s.%s" % (C, meth)
+        E.case_suffix = "/expire=None"
+        st = State()
+        set_faults(st, mode)
+        me, sock0 = mk_client(st, True)
+        st.ghost["fetch_calls"] = []
+        key = OpaqueV(z3.Const("arg_key", Py))
+        for o in E.run_function(q, st, [key], {"expire": NONE}, selfv=me):
+            s = o.st
+            ok = not s.ghost["fetch_calls"] and o.kind == "raise" and o.val.cls == "MemcacheIllegalInputError"
+            E.oblige("%s/non-integer-exptime-None-is-rejected-before-the-exchange%s" % (pid(E, "wire", q), E.case_suffix), s, z3.BoolVal(bool(ok)), func=q,
+                     meta={"gat_none": meth, "outcome": o.kind})
+    E.case_suffix = ""
     E.contracts.pop(C + "._fetch_cmd", None)
 
 
